@@ -13249,8 +13249,20 @@ tsk_table_collection_union(tsk_table_collection_t *self,
     tsk_id_t *individual_map = NULL;
     tsk_id_t *population_map = NULL;
     tsk_id_t *site_map = NULL;
+    tsk_table_collection_t other_copy;
     bool add_populations = !(options & TSK_UNION_NO_ADD_POP);
     bool check_shared_portion = !(options & TSK_UNION_NO_CHECK_SHARED);
+
+    tsk_memset(&other_copy, 0, sizeof(other_copy));
+    if (other == self) {
+        /* Rows are appended to self while other is read, so the union of a
+         * table collection with itself must read from a snapshot. */
+        ret = tsk_table_collection_copy(self, &other_copy, 0);
+        if (ret != 0) {
+            goto out;
+        }
+        other = &other_copy;
+    }
 
     /* Not calling TSK_CHECK_TREES so casting to int is safe */
     ret = (int) tsk_table_collection_check_integrity(self, 0);
@@ -13416,6 +13428,7 @@ tsk_table_collection_union(tsk_table_collection_t *self,
     }
 
 out:
+    tsk_table_collection_free(&other_copy);
     tsk_safe_free(node_map);
     tsk_safe_free(individual_map);
     tsk_safe_free(population_map);
